@@ -25,9 +25,9 @@ struct IlHarness : HarnessBase {
 	IList &L(int a) { return *reinterpret_cast<IList *>(w.lists[a]); }
 	LNode &node(int i) { return reinterpret_cast<LNode *>(w.nodes)[i]; }
 	void reset() {
-		memset(&w, 0, sizeof w);
-		for(int a = 0; a < 2; a++) { new(w.lists[a]) IList(); ref[a].clear(); }
-		for(int i = 0; i < n; i++) { LNode *p = new(&node(i)) LNode(); p->id = i; }
+		memset(&w, 0xA5, sizeof w);   // nodes and lists are built in storage that is not all-zero, and default-initialised
+		for(int a = 0; a < 2; a++) { new(w.lists[a]) IList; ref[a].clear(); }
+		for(int i = 0; i < n; i++) { LNode *p = new(&node(i)) LNode; p->id = i; }
 	}
 	int where(int i) const { for(int a = 0; a < 2; a++) if(std::find(ref[a].begin(), ref[a].end(), i) != ref[a].end()) return a; return -1; }
 	enum { PUSH_FRONT, PUSH_BACK, INSERT, ERASE, POP_FRONT, POP_BACK, CLEAR, SPLICE };
